@@ -19,7 +19,31 @@ func Hmeta() {
 	vOut("nfields_tab", len(_fields))
 	vOut("nmsgtypes", len(msgsTypes))
 	vOut("nnewfuncs", len(newMesgFuncs))
-	_ = reflect.TypeOf
+	// hosting table: which message number each container member holds
+	for ti := range vFileTypes {
+		f, err := NewFile(FileType(vFileTypes[ti]), NewHeader(V20, true))
+		if err != nil {
+			continue
+		}
+		cont := vContainer(f, ti)
+		vOut("nhost_"+vItoa(ti), cont.NumField())
+		for i := 0; i < cont.NumField(); i++ {
+			ft := cont.Field(i).Type()
+			var mt reflect.Type
+			if ft.Kind() == reflect.Ptr {
+				mt = ft.Elem()
+			} else {
+				mt = ft.Elem().Elem()
+			}
+			vOut("host_"+vItoa(ti)+"_"+vItoa(i), int(getGlobalMesgNum(mt)))
+		}
+	}
+	// struct field counts per message
+	for g := 0; g < len(_fields); g++ {
+		if knownMsgNums[MesgNum(g)] {
+			vOut("nf_"+vItoa(g), getMesgAllInvalid(MesgNum(g)).NumField())
+		}
+	}
 	vReached("end")
 }
 
